@@ -216,11 +216,16 @@ func genNode(t *rapid.T, o *GenOptions, depth int, kind string, b *budget) Spec 
 			k := rapid.SampledFrom(kinds).Draw(t, "kind")
 			s.Kids = append(s.Kids, genNode(t, o, depth+1, k, b))
 		}
-		if b.bulks > 0 && o.BulkMax > 0 && rapid.IntRange(0, 2).Draw(t, "bulk?") == 0 {
+		if b.bulks > 0 && o.BulkMax > 0 && rapid.IntRange(0, 4).Draw(t, "bulk?") == 0 {
 			b.bulks--
-			n := rapid.IntRange(0, o.BulkMax).Draw(t, "bulkn")
-			if rapid.IntRange(0, 3).Draw(t, "bulkfull") == 0 {
+			var n int
+			switch rapid.IntRange(0, 7).Draw(t, "bulkclass") { // large fan-outs cost seconds: keep them a minority
+			case 0:
 				n = o.BulkMax
+			case 1, 2:
+				n = rapid.IntRange(0, o.BulkMax).Draw(t, "bulkn")
+			default:
+				n = rapid.IntRange(0, min(o.BulkMax, 150)).Draw(t, "bulkn")
 			}
 			s.Bulk = &Bulk{N: n, Seed: rapid.Uint64().Draw(t, "bulkseed"),
 				Scheme: rapid.SampledFrom([]string{"mix", "mix", "seq", "long"}).Draw(t, "scheme")}
